@@ -52,8 +52,8 @@ def WFQuestion (q : EQuestion) : Prop := WFName q.name ∧ q.qtype < 65536 ∧ q
 
 theorem encQuestion_spec (mc : Bool) (pre : Bytes) (names names' : Names) (out : Bytes) (q : EQuestion)
     (h12 : 12 ≤ pre.length) (hg : NamesGood pre names) (hwf : WFQuestion q)
-    (hw : encQuestion mc pre.length names q = .ok (out, names')) (hfin : (pre ++ out).length ≤ 16384) :
-    decQuestion (pre ++ out) pre.length = some (q.onWire mc, (pre ++ out).length) ∧ NamesGood (pre ++ out) names' := by
+    (hw : encQuestion mc pre.length names q = .ok (out, names')) (hfin : (pre ++ out).length ≤ 16384) (tail : Bytes) :
+    decQuestion (pre ++ out ++ tail) pre.length = some (q.onWire mc, (pre ++ out).length) ∧ NamesGood (pre ++ out) names' := by
   obtain ⟨hn, ht, hc⟩ := hwf
   unfold encQuestion at hw
   cases h1 : writeName pre.length names q.name with
@@ -74,14 +74,16 @@ theorem encQuestion_spec (mc : Bool) (pre : Bytes) (names names' : Names) (out :
         obtain ⟨hdn, hng, _⟩ := writeName_spec pre names names1 nb q.name h12 hg hn h1 hfin1
         have e1 : pre ++ (nb ++ be16 q.qtype ++ be16 (classField q.qclass q.unique mc))
             = (pre ++ nb) ++ (be16 q.qtype ++ be16 (classField q.qclass q.unique mc)) := by simp
+        have e2 : pre ++ (nb ++ be16 q.qtype ++ be16 (classField q.qclass q.unique mc)) ++ tail
+            = (pre ++ nb) ++ (be16 q.qtype ++ be16 (classField q.qclass q.unique mc) ++ tail) := by simp
         refine ⟨?_, ?_⟩
         · unfold decQuestion
-          rw [e1, decName_append _ hdn]
-          have u1 : u16At (pre ++ nb ++ (be16 q.qtype ++ be16 (classField q.qclass q.unique mc))) (pre ++ nb).length = some q.qtype :=
-            u16At_of_eq _ (pre ++ nb) (be16 (classField q.qclass q.unique mc)) _ _ (by simp) rfl ht
-          have u2 : u16At (pre ++ nb ++ (be16 q.qtype ++ be16 (classField q.qclass q.unique mc))) ((pre ++ nb).length + 2)
+          rw [e2, decName_append _ hdn]
+          have u1 : u16At (pre ++ nb ++ (be16 q.qtype ++ be16 (classField q.qclass q.unique mc) ++ tail)) (pre ++ nb).length = some q.qtype :=
+            u16At_of_eq _ (pre ++ nb) (be16 (classField q.qclass q.unique mc) ++ tail) _ _ (by simp) rfl ht
+          have u2 : u16At (pre ++ nb ++ (be16 q.qtype ++ be16 (classField q.qclass q.unique mc) ++ tail)) ((pre ++ nb).length + 2)
               = some (classField q.qclass q.unique mc) :=
-            u16At_of_eq _ (pre ++ nb ++ be16 q.qtype) [] _ _ (by simp) (by simp [be16_length]; omega) hcl
+            u16At_of_eq _ (pre ++ nb ++ be16 q.qtype) tail _ _ (by simp) (by simp [be16_length]; omega) hcl
           simp only [bind, Option.bind, u1, u2, pure, Option.some.injEq, Prod.mk.injEq]
           refine ⟨?_, by simp [be16_length]; omega⟩
           simp [EQuestion.onWire, classField_eq _ _ _ hc]
@@ -119,12 +121,12 @@ theorem charString_mid (a s b : Bytes) (hs : s.length ≤ 255) :
 
 theorem encRData_spec_addr (pre : Bytes) (names names' : Names) (out a : Bytes) (rtype : Nat)
     (hg : NamesGood pre names) (hwf : WFRData rtype (.addr a))
-    (hw : encRData pre.length names (.addr a) = .ok (out, names')) :
-    decRData (pre ++ out) rtype pre.length out.length = some (ERData.addr a).onWire ∧ NamesGood (pre ++ out) names' := by
+    (hw : encRData pre.length names (.addr a) = .ok (out, names')) (tail : Bytes) :
+    decRData (pre ++ out ++ tail) rtype pre.length out.length = some (ERData.addr a).onWire ∧ NamesGood (pre ++ out) names' := by
   simp only [encRData, pure, Except.pure, Except.ok.injEq, Prod.mk.injEq] at hw
   obtain ⟨rfl, rfl⟩ := hw
   refine ⟨?_, hg.append _⟩
-  have hb : bytesAt (pre ++ a) pre.length a.length = some a := bytesAt_of_eq _ pre a [] _ _ (by simp) rfl rfl
+  have hb : bytesAt (pre ++ (a ++ tail)) pre.length a.length = some a := bytesAt_of_eq _ pre a tail _ _ (by simp) rfl rfl
   unfold decRData
   rcases hwf with ⟨rfl, h4⟩ | ⟨rfl, h16⟩
   · simp only [if_true, h4] at hb ⊢
@@ -134,12 +136,12 @@ theorem encRData_spec_addr (pre : Bytes) (names names' : Names) (out a : Bytes) 
 
 theorem encRData_spec_txt (pre : Bytes) (names names' : Names) (out t : Bytes) (rtype : Nat)
     (hg : NamesGood pre names) (hwf : WFRData rtype (.txt t))
-    (hw : encRData pre.length names (.txt t) = .ok (out, names')) :
-    decRData (pre ++ out) rtype pre.length out.length = some (ERData.txt t).onWire ∧ NamesGood (pre ++ out) names' := by
+    (hw : encRData pre.length names (.txt t) = .ok (out, names')) (tail : Bytes) :
+    decRData (pre ++ out ++ tail) rtype pre.length out.length = some (ERData.txt t).onWire ∧ NamesGood (pre ++ out) names' := by
   simp only [encRData, pure, Except.pure, Except.ok.injEq, Prod.mk.injEq] at hw
   obtain ⟨rfl, rfl⟩ := hw
   refine ⟨?_, hg.append _⟩
-  have hb : bytesAt (pre ++ t) pre.length t.length = some t := bytesAt_of_eq _ pre t [] _ _ (by simp) rfl rfl
+  have hb : bytesAt (pre ++ (t ++ tail)) pre.length t.length = some t := bytesAt_of_eq _ pre t tail _ _ (by simp) rfl rfl
   have ht : rtype = 16 := hwf
   subst ht
   unfold decRData
@@ -147,19 +149,21 @@ theorem encRData_spec_txt (pre : Bytes) (names names' : Names) (out t : Bytes) (
 
 theorem encRData_spec_ptr (pre : Bytes) (names names' : Names) (out : Bytes) (t : WName) (rtype : Nat)
     (h12 : 12 ≤ pre.length) (hg : NamesGood pre names) (hwf : WFRData rtype (.ptr t))
-    (hw : encRData pre.length names (.ptr t) = .ok (out, names')) (hfin : (pre ++ out).length ≤ 16384) :
-    decRData (pre ++ out) rtype pre.length out.length = some (ERData.ptr t).onWire ∧ NamesGood (pre ++ out) names' := by
+    (hw : encRData pre.length names (.ptr t) = .ok (out, names')) (hfin : (pre ++ out).length ≤ 16384) (tail : Bytes) :
+    decRData (pre ++ out ++ tail) rtype pre.length out.length = some (ERData.ptr t).onWire ∧ NamesGood (pre ++ out) names' := by
   simp only [encRData] at hw
   obtain ⟨hty, hn⟩ := hwf
-  obtain ⟨hd, hng, _⟩ := writeName_spec pre names names' out t h12 hg hn hw hfin
+  obtain ⟨hd0, hng, _⟩ := writeName_spec pre names names' out t h12 hg hn hw hfin
+  have hd := decName_append tail hd0
+  rw [List.append_assoc] at hd
   refine ⟨?_, hng⟩
   unfold decRData
   rcases hty with rfl | rfl <;> simp [hd, ERData.onWire]
 
 theorem encRData_spec_srv (pre : Bytes) (names names' : Names) (out : Bytes) (p w q : Nat) (t : WName) (rtype : Nat)
     (h12 : 12 ≤ pre.length) (hg : NamesGood pre names) (hwf : WFRData rtype (.srv p w q t))
-    (hw : encRData pre.length names (.srv p w q t) = .ok (out, names')) (hfin : (pre ++ out).length ≤ 16384) :
-    decRData (pre ++ out) rtype pre.length out.length = some (ERData.srv p w q t).onWire ∧ NamesGood (pre ++ out) names' := by
+    (hw : encRData pre.length names (.srv p w q t) = .ok (out, names')) (hfin : (pre ++ out).length ≤ 16384) (tail : Bytes) :
+    decRData (pre ++ out ++ tail) rtype pre.length out.length = some (ERData.srv p w q t).onWire ∧ NamesGood (pre ++ out) names' := by
   obtain ⟨rfl, hp, hw', hq, hn⟩ := hwf
   simp only [encRData] at hw
   have e1 : shortOf p = .ok (be16 p) := by simp [shortOf, hp]
@@ -179,15 +183,16 @@ theorem encRData_spec_srv (pre : Bytes) (names names' : Names) (out : Bytes) (p 
     have hfin6 : (pre6 ++ nb).length ≤ 16384 := by rw [← hbuf]; exact hfin
     have hg6 : NamesGood pre6 names := by
       have := (hg.append (be16 p ++ be16 w ++ be16 q)); simpa [pre6, List.append_assoc] using this
-    obtain ⟨hd, hng, _⟩ := writeName_spec pre6 names names1 nb t (by omega) hg6 hn h1 hfin6
+    obtain ⟨hd0, hng, _⟩ := writeName_spec pre6 names names1 nb t (by omega) hg6 hn h1 hfin6
+    have hd := decName_append tail hd0
     rw [hbuf]
     refine ⟨?_, hng⟩
-    have u1 : u16At (pre6 ++ nb) pre.length = some p :=
-      u16At_of_eq _ pre (be16 w ++ be16 q ++ nb) _ _ (by simp [pre6]) rfl hp
-    have u2 : u16At (pre6 ++ nb) (pre.length + 2) = some w :=
-      u16At_of_eq _ (pre ++ be16 p) (be16 q ++ nb) _ _ (by simp [pre6]) (by simp [be16_length]) hw'
-    have u3 : u16At (pre6 ++ nb) (pre.length + 4) = some q :=
-      u16At_of_eq _ (pre ++ be16 p ++ be16 w) nb _ _ (by simp [pre6]) (by simp [be16_length]) hq
+    have u1 : u16At (pre6 ++ nb ++ tail) pre.length = some p :=
+      u16At_of_eq _ pre (be16 w ++ be16 q ++ nb ++ tail) _ _ (by simp [pre6]) rfl hp
+    have u2 : u16At (pre6 ++ nb ++ tail) (pre.length + 2) = some w :=
+      u16At_of_eq _ (pre ++ be16 p) (be16 q ++ nb ++ tail) _ _ (by simp [pre6]) (by simp [be16_length]) hw'
+    have u3 : u16At (pre6 ++ nb ++ tail) (pre.length + 4) = some q :=
+      u16At_of_eq _ (pre ++ be16 p ++ be16 w) (nb ++ tail) _ _ (by simp [pre6]) (by simp [be16_length]) hq
     rw [hl6] at hd
     unfold decRData
     simp only [bind, Option.bind, u1, u2, u3, hd]
@@ -196,8 +201,8 @@ theorem encRData_spec_srv (pre : Bytes) (names names' : Names) (out : Bytes) (p 
 
 theorem encRData_spec_hinfo (pre : Bytes) (names names' : Names) (out c o : Bytes) (rtype : Nat)
     (hg : NamesGood pre names) (hwf : WFRData rtype (.hinfo c o))
-    (hw : encRData pre.length names (.hinfo c o) = .ok (out, names')) :
-    decRData (pre ++ out) rtype pre.length out.length = some (ERData.hinfo c o).onWire ∧ NamesGood (pre ++ out) names' := by
+    (hw : encRData pre.length names (.hinfo c o) = .ok (out, names')) (tail : Bytes) :
+    decRData (pre ++ out ++ tail) rtype pre.length out.length = some (ERData.hinfo c o).onWire ∧ NamesGood (pre ++ out) names' := by
   obtain ⟨rfl, hc, ho⟩ := hwf
   simp only [encRData] at hw
   cases h1 : charStringOf c with
@@ -213,12 +218,12 @@ theorem encRData_spec_hinfo (pre : Bytes) (names names' : Names) (out c o : Byte
       have := charStringOf_ok ho h2
       subst this
       refine ⟨?_, hg.append _⟩
-      have c1 : charString (pre ++ (c.length.toUInt8 :: c ++ o.length.toUInt8 :: o)) pre.length = some (c, pre.length + 1 + c.length) := by
-        have := charString_mid pre c (o.length.toUInt8 :: o) hc
+      have c1 : charString (pre ++ (c.length.toUInt8 :: c ++ o.length.toUInt8 :: o) ++ tail) pre.length = some (c, pre.length + 1 + c.length) := by
+        have := charString_mid pre c (o.length.toUInt8 :: o ++ tail) hc
         simpa [List.append_assoc] using this
-      have c2 : charString (pre ++ (c.length.toUInt8 :: c ++ o.length.toUInt8 :: o)) (pre.length + 1 + c.length)
+      have c2 : charString (pre ++ (c.length.toUInt8 :: c ++ o.length.toUInt8 :: o) ++ tail) (pre.length + 1 + c.length)
           = some (o, pre.length + 1 + c.length + 1 + o.length) := by
-        have := charString_mid (pre ++ (c.length.toUInt8 :: c)) o [] ho
+        have := charString_mid (pre ++ (c.length.toUInt8 :: c)) o tail ho
         simp only [List.append_nil, List.length_append, List.length_cons] at this
         rw [show pre.length + (c.length + 1) = pre.length + 1 + c.length by omega] at this
         simpa [List.append_assoc] using this
@@ -234,14 +239,14 @@ def ERData.isNsec : ERData → Bool
 /-- all record kinds except NSEC (whose bitmap round trip is proved separately) -/
 theorem encRData_spec (pre : Bytes) (names names' : Names) (out : Bytes) (rd : ERData) (rtype : Nat)
     (h12 : 12 ≤ pre.length) (hg : NamesGood pre names) (hwf : WFRData rtype rd) (hns : rd.isNsec = false)
-    (hw : encRData pre.length names rd = .ok (out, names')) (hfin : (pre ++ out).length ≤ 16384) :
-    decRData (pre ++ out) rtype pre.length out.length = some rd.onWire ∧ NamesGood (pre ++ out) names' := by
+    (hw : encRData pre.length names rd = .ok (out, names')) (hfin : (pre ++ out).length ≤ 16384) (tail : Bytes) :
+    decRData (pre ++ out ++ tail) rtype pre.length out.length = some rd.onWire ∧ NamesGood (pre ++ out) names' := by
   cases rd with
-  | addr a => exact encRData_spec_addr pre names names' out a rtype hg hwf hw
-  | ptr t => exact encRData_spec_ptr pre names names' out t rtype h12 hg hwf hw hfin
-  | txt t => exact encRData_spec_txt pre names names' out t rtype hg hwf hw
-  | srv p w q t => exact encRData_spec_srv pre names names' out p w q t rtype h12 hg hwf hw hfin
-  | hinfo c o => exact encRData_spec_hinfo pre names names' out c o rtype hg hwf hw
+  | addr a => exact encRData_spec_addr pre names names' out a rtype hg hwf hw tail
+  | ptr t => exact encRData_spec_ptr pre names names' out t rtype h12 hg hwf hw hfin tail
+  | txt t => exact encRData_spec_txt pre names names' out t rtype hg hwf hw tail
+  | srv p w q t => exact encRData_spec_srv pre names names' out p w q t rtype h12 hg hwf hw hfin tail
+  | hinfo c o => exact encRData_spec_hinfo pre names names' out c o rtype hg hwf hw tail
   | nsec n ts => simp [ERData.isNsec] at hns
 
 /-- records inside the quantifier -/
@@ -262,8 +267,8 @@ theorem ttlField_eq (r : ERecord) (now : Ms) : 0 ≤ ttlField r now ∧ (ttlFiel
 
 theorem encRecord_spec (mc : Bool) (pre : Bytes) (names names' : Names) (out : Bytes) (r : ERecord) (now : Ms)
     (h12 : 12 ≤ pre.length) (hg : NamesGood pre names) (hwf : WFRec r now) (hns : r.rdata.isNsec = false)
-    (hw : encRecord mc pre.length names r now = .ok (out, names')) (hfin : (pre ++ out).length ≤ 16384) :
-    decRecord (pre ++ out) pre.length = some (r.onWire mc now, (pre ++ out).length) ∧ NamesGood (pre ++ out) names' := by
+    (hw : encRecord mc pre.length names r now = .ok (out, names')) (hfin : (pre ++ out).length ≤ 16384) (tail : Bytes) :
+    decRecord (pre ++ out ++ tail) pre.length = some (r.onWire mc now, (pre ++ out).length) ∧ NamesGood (pre ++ out) names' := by
   obtain ⟨hn, ht, hc, httl, hrd⟩ := hwf
   obtain ⟨hpos, htn⟩ := ttlField_eq r now
   unfold encRecord at hw
@@ -298,32 +303,34 @@ theorem encRecord_spec (mc : Bool) (pre : Bytes) (names names' : Names) (out : B
         have hbuf : pre ++ (nb ++ be16 r.rtype ++ be16 (classField r.rclass r.unique mc) ++ be32 (wireTtl r now) ++ be16 rd.length ++ rd)
             = pre2 ++ rd := by simp [pre2, pre1, fixed]
         rw [hbuf] at hfin ⊢
+        have hlen2 : (pre2 ++ rd).length = pre1.length + 10 + rd.length := by
+          simp [pre2, pre1, fixed, be16_length, be32_length]; omega
         have hfin1 : (pre ++ nb).length ≤ 16384 := by
           have : (pre2 ++ rd).length = pre.length + nb.length + 10 + rd.length := by rw [List.length_append, hl2]
           simp; omega
         obtain ⟨hdn, hng1, _⟩ := writeName_spec pre names names1 nb r.name h12 hg hn h1 hfin1
         have hg2 : NamesGood pre2 names1 := hng1.append fixed
         rw [← hl2] at h5
-        obtain ⟨hdr, hng2⟩ := encRData_spec pre2 names1 names2 rd r.rdata r.rtype (by omega) hg2 hrd hns h5 hfin
+        obtain ⟨hdr, hng2⟩ := encRData_spec pre2 names1 names2 rd r.rdata r.rtype (by omega) hg2 hrd hns h5 hfin tail
         refine ⟨?_, hng2⟩
-        have hdn' : decName (pre2 ++ rd) pre.length = some (r.name, pre1.length) := by
-          have := decName_append (fixed ++ rd) hdn
+        have hdn' : decName (pre2 ++ rd ++ tail) pre.length = some (r.name, pre1.length) := by
+          have := decName_append (fixed ++ rd ++ tail) hdn
           simpa [pre2, pre1, List.append_assoc] using this
         have hl1 : pre1.length = pre.length + nb.length := by simp [pre1]
-        have u1 : u16At (pre2 ++ rd) pre1.length = some r.rtype :=
-          u16At_of_eq _ pre1 (be16 (classField r.rclass r.unique mc) ++ be32 (wireTtl r now) ++ be16 rd.length ++ rd) _ _
+        have u1 : u16At (pre2 ++ rd ++ tail) pre1.length = some r.rtype :=
+          u16At_of_eq _ pre1 (be16 (classField r.rclass r.unique mc) ++ be32 (wireTtl r now) ++ be16 rd.length ++ rd ++ tail) _ _
             (by simp [pre2, fixed]) rfl ht
-        have u2 : u16At (pre2 ++ rd) (pre1.length + 2) = some (classField r.rclass r.unique mc) :=
-          u16At_of_eq _ (pre1 ++ be16 r.rtype) (be32 (wireTtl r now) ++ be16 rd.length ++ rd) _ _
+        have u2 : u16At (pre2 ++ rd ++ tail) (pre1.length + 2) = some (classField r.rclass r.unique mc) :=
+          u16At_of_eq _ (pre1 ++ be16 r.rtype) (be32 (wireTtl r now) ++ be16 rd.length ++ rd ++ tail) _ _
             (by simp [pre2, fixed]) (by simp [be16_length]) hcl
-        have u3 : u32At (pre2 ++ rd) (pre1.length + 4) = some (wireTtl r now) :=
-          u32At_of_eq _ (pre1 ++ be16 r.rtype ++ be16 (classField r.rclass r.unique mc)) (be16 rd.length ++ rd) _ _
+        have u3 : u32At (pre2 ++ rd ++ tail) (pre1.length + 4) = some (wireTtl r now) :=
+          u32At_of_eq _ (pre1 ++ be16 r.rtype ++ be16 (classField r.rclass r.unique mc)) (be16 rd.length ++ rd ++ tail) _ _
             (by simp [pre2, fixed]) (by simp [be16_length]) httl
-        have u4 : u16At (pre2 ++ rd) (pre1.length + 8) = some rd.length :=
-          u16At_of_eq _ (pre1 ++ be16 r.rtype ++ be16 (classField r.rclass r.unique mc) ++ be32 (wireTtl r now)) rd _ _
+        have u4 : u16At (pre2 ++ rd ++ tail) (pre1.length + 8) = some rd.length :=
+          u16At_of_eq _ (pre1 ++ be16 r.rtype ++ be16 (classField r.rclass r.unique mc) ++ be32 (wireTtl r now)) (rd ++ tail) _ _
             (by simp [pre2, fixed]) (by simp [be16_length, be32_length]) hrl
-        have hle : pre1.length + 10 + rd.length ≤ (pre2 ++ rd).length := by
-          have : (pre2 ++ rd).length = pre2.length + rd.length := List.length_append
+        have hle : pre1.length + 10 + rd.length ≤ (pre2 ++ rd ++ tail).length := by
+          have : (pre2 ++ rd ++ tail).length = pre2.length + rd.length + tail.length := by simp; omega
           omega
         have hoff : pre1.length + 10 = pre2.length := by rw [hl2, hl1]
         unfold decRecord
